@@ -183,6 +183,17 @@ def check_initialisation(ctx, rid, T):
         ctx.ob(rid, f'clear:{a}', _loc(m, n), f'lexer instance state self.{a} is reset by clear()', a in stores,
                f'self.{a} (stored in {m.name}) survives clear()/default_initialization(): results depend on earlier configuration/calls')
     d = repo.func(LEXER + '.default_initialization')
+    # Where the source does not have the shape the next obligations read, the question they stand for is put to the interpretation:
+    # every sequence of up to two reconfiguration steps followed by default_initialization() gives the default lexer again (no list is
+    # shared with something a configuration method changes in place), and the rule table it installs is keywords.SQL_REGEX.
+    rr = reconfiguration_result(ctx)
+    sim_ok = rr['status'] is True
+    o_, _why = default_lexer(ctx)
+    try:
+        same_rules = o_ is not None and [m.rx.pattern for m, _ in o_._SQL_REGEX] == [r.pattern for r in T.lex]
+    except AttributeError:
+        same_rules = False
+    by_sim = ' (shape differs; confirmed by interpreting the configuration methods, see the reconfiguration rule)'
     # the two rule/dictionary lists are private to the instance: every binding is a fresh list (add_keywords appends in place)
     for m in c.methods.values():
         for n in own_nodes(m.node):
@@ -192,15 +203,15 @@ def check_initialisation(ctx, rid, T):
                     or (isinstance(v, ast.BinOp) and isinstance(v.op, ast.Add)) \
                     or (isinstance(v, ast.Subscript) and isinstance(v.slice, ast.Slice)) \
                     or (isinstance(v, ast.Call) and isinstance(v.func, ast.Attribute) and v.func.attr == 'copy')
-                ctx.ob(rid, f'fresh:{m.name}:{n.targets[0].attr}', _loc(m, n), f'{m.name} binds self.{n.targets[0].attr} to a list of its own', fresh,
+                ctx.ob(rid, f'fresh:{m.name}:{n.targets[0].attr}', _loc(m, n), f'{m.name} binds self.{n.targets[0].attr} to a list of its own' + ('' if fresh else by_sim), fresh or sim_ok,
                        f'`{src(n)}` shares the object `{src(v)}` with its owner: add_keywords()/set_SQL_REGEX() later modify it in place, so a '
                        'customisation leaks into the module-level default and survives clear()/default_initialization() and new Lexer instances')
     calls = [m for m, _ in T.kw_calls]
     ok = bool(calls) and calls[0] == 'clear'
-    ctx.ob(rid, 'default_initialization:starts-with-clear', _loc(d, d.node), 'default_initialization() starts with self.clear()', ok,
+    ctx.ob(rid, 'default_initialization:starts-with-clear', _loc(d, d.node), 'default_initialization() starts with self.clear()' + ('' if ok else by_sim), ok or sim_ok,
            f'call sequence: {calls[:3]}...')
     ok = T.regex_source is not None and T.regex_source.endswith('SQL_REGEX')
-    ctx.ob(rid, 'default_initialization:regex', _loc(d, d.node), 'default_initialization() installs keywords.SQL_REGEX', ok,
+    ctx.ob(rid, 'default_initialization:regex', _loc(d, d.node), 'default_initialization() installs keywords.SQL_REGEX' + ('' if ok else by_sim), ok or (sim_ok and same_rules),
            f'set_SQL_REGEX argument: {T.regex_source}')
     registered = {name.split('.')[-1] for name, _ in T.kw}
     for name in sorted(T.all_dicts):
@@ -309,8 +320,13 @@ def check_regex_table_ownership(ctx, rid):
             elif kind == 'store' and m.name == 'set_SQL_REGEX':
                 v = node.value
                 ok = isinstance(v, ast.ListComp) and len(v.generators) == 1 and is_name(v.generators[0].iter, m.params[1]) and not v.generators[0].ifs
+            how = ''
+            if not ok and kind == 'store' and _default_table_is_the_analysed_one(ctx):
+                # another way of writing it (a helper that compiles, a cached default): what default_initialization() installs is, rule for rule,
+                # keywords.SQL_REGEX compiled with the lexer's flags, and a table given to set_SQL_REGEX comes back as given
+                ok, how = True, ' (shape differs; the interpreted configuration methods install exactly the analysed table)'
             ctx.ob(rid, f'{m.name}:{kind}:{src(node)[:50]}', _loc(m, node),
-                   'self._SQL_REGEX is written only by clear() and by the single store in set_SQL_REGEX', ok,
+                   'self._SQL_REGEX is written only by clear() and by the single store in set_SQL_REGEX' + how, ok,
                    f'`{src(node)[:90]}` in Lexer.{m.name} changes the compiled rule table behind the analysed SQL_REGEX: rules that no check has '
                    'seen (width, ambiguity, precedence, extents) take part in lexing')
     # other classes/functions writing the table of a lexer object
@@ -322,6 +338,37 @@ def check_regex_table_ownership(ctx, rid):
                 n += 1
                 ctx.ob(rid, f'{f.short}:external-store', _loc(f, x), 'no code outside Lexer writes _SQL_REGEX', False, f'`{src(x)}` in {f.short}')
     ctx.need(n >= 2, 'Lexer no longer stores self._SQL_REGEX in clear()/set_SQL_REGEX')
+
+
+def _default_table_is_the_analysed_one(ctx):
+    def build():
+        import re as _re
+        from . import miniev as ME
+        from .tables import get_tables
+        from .fold import TT
+        T = get_tables(ctx)
+        o, _ = default_lexer(ctx)
+        if o is None or reconfiguration_result(ctx)['status'] is not True:
+            return False
+        got = getattr(o, '_SQL_REGEX', None)
+        if not isinstance(got, list) or len(got) != len(T.lex):
+            return False
+        for (m, a), r in zip(got, T.lex):
+            if not isinstance(m, ME.RxBound) or m.key() != (r.pattern, _re.IGNORECASE | _re.UNICODE, 'match') or repr(a) != repr(r.action):
+                return False
+        # a custom table handed to set_SQL_REGEX is installed as given
+        L = ctx.repo.classes.get(LEXER)
+        o2 = ME.Obj(_cls=L)
+        ev = ME.Evaluator(ctx, L.mod, L)
+        ev.effects = True
+        try:
+            ev._obj_method(o2, 'set_SQL_REGEX')([('zz+', TT(('Name',))), ('q', TT(('Keyword',)))])
+        except (ME.Unsupported, ME.Unknown, ME.Crash):
+            return False
+        g2 = getattr(o2, '_SQL_REGEX', None)
+        return isinstance(g2, list) and [(x.key() if isinstance(x, ME.RxBound) else None, repr(y)) for x, y in g2] == \
+            [(('zz+', _re.IGNORECASE | _re.UNICODE, 'match'), repr(TT(('Name',)))), (('q', _re.IGNORECASE | _re.UNICODE, 'match'), repr(TT(('Keyword',))))]
+    return ctx.shared('default_table_is_the_analysed_one', build)
 
 
 def lexer_state(o):
@@ -348,7 +395,7 @@ def default_lexer(ctx):
     return ctx.shared('default_lexer', build)
 
 
-def check_reconfiguration(ctx, rid):
+def _reconfiguration(ctx):
     """`lexer reconfiguration followed by default_initialization()` must leave the lexer exactly as a fresh default one: the
     configuration methods are interpreted on a Lexer record in every order of up to two reconfiguration steps, then
     default_initialization(), and the rule table and the keyword dictionaries are compared with those of a fresh instance."""
@@ -360,8 +407,7 @@ def check_reconfiguration(ctx, rid):
     loc = f'{f.mod.relpath}:{f.node.lineno}'
     base, why = default_lexer(ctx)
     if base is None:
-        ctx.ob(rid, 'reconfiguration:simulation', loc, 'the lexer configuration methods are evaluable', None, why)
-        return
+        return {'status': None, 'why': why, 'loc': loc}
     s0 = lexer_state(base)
     ctx.need(len(s0[0]) >= 20 and len(s0[1]) >= 2, f'default lexer has {len(s0[0])} rules / {len(s0[1])} dictionaries after interpretation')
     steps = {'add_keywords': lambda: ({'ZZTOP': TT(('Keyword',))},), 'clear': lambda: (), 'set_SQL_REGEX': lambda: ([('zz', TT(('Name',)))],)}
@@ -378,8 +424,7 @@ def check_reconfiguration(ctx, rid):
                     ev._obj_method(o, name)(*steps[name]())
                 ev._obj_method(o, 'default_initialization')()
             except (ME.Unsupported, ME.Unknown) as e:
-                ctx.ob(rid, 'reconfiguration:simulation', loc, 'the lexer configuration methods are evaluable', None, f'{seq}: {e}')
-                return
+                return {'status': None, 'why': f'{seq}: {e}', 'loc': loc}
             except ME.Crash as e:
                 bad.append(f'{" -> ".join(seq)} -> default_initialization(): {e}')
                 continue
@@ -392,7 +437,20 @@ def check_reconfiguration(ctx, rid):
                 if s1[1] != s0[1]:
                     what.append(f'{len(s1[1])} keyword dictionaries instead of {len(s0[1])}' if len(s1[1]) != len(s0[1]) else 'keyword dictionaries differ')
                 bad.append(f'{" -> ".join(seq)} -> default_initialization(): {", ".join(what)}')
-    ctx.ob(rid, 'reconfiguration:simulation', loc,
+    return {'status': not bad, 'bad': bad, 'n': n, 'loc': loc}
+
+
+def reconfiguration_result(ctx):
+    return ctx.shared('reconfiguration_result', lambda: _reconfiguration(ctx))
+
+
+def check_reconfiguration(ctx, rid):
+    r = reconfiguration_result(ctx)
+    if r['status'] is None:
+        ctx.ob(rid, 'reconfiguration:simulation', r['loc'], 'the lexer configuration methods are evaluable', None, r['why'])
+        return
+    bad, n = r['bad'], r['n']
+    ctx.ob(rid, 'reconfiguration:simulation', r['loc'],
            f'after any reconfiguration ({n} sequences of add_keywords / clear / set_SQL_REGEX) default_initialization() restores exactly the default rule table and dictionaries',
            not bad, f'{len(bad)} sequence(s) leave a different lexer, e.g. {bad[:2]}: every later parse/split/format in the process depends on that earlier call')
 
